@@ -170,10 +170,43 @@ struct RoundTrip<void>
 template <typename D>
 void report_roundtrip(const char* key, const std::string& bytes) { RoundTrip<D>::run(key, bytes); }
 
+// Deserialize into a destination that may have fixed-size sequence nodes (std::array), with bytes of a following value
+// behind the encoding: either the value round-trips and exactly the trailing bytes are left, or an exception is thrown.
+template <typename D>
+struct Into
+{
+  static void run(const std::string& bytes)
+  {
+    const std::string trailing("\x01\x02\x03\x04\x05\x06\x07\x08", 8);
+    const std::string input = bytes + trailing;
+    const auto dtag = mserialize::tag<D>();
+    std::cout << " fxtag=" << hex(std::string(dtag.data(), dtag.size()));
+    D d{};
+    binlog::Range in(input.data(), input.size());
+    try
+    {
+      mserialize::deserialize(d, in);
+      std::cout << " fx=" << hex(serialize_to_string(d)) << '/' << in.size();
+    }
+    catch (const std::exception& ex)
+    {
+      const std::string what = ex.what();
+      if (what.find("target size") != std::string::npos) { std::cout << " fx=ERR:size-mismatch"; }
+      else if (what.find("Range overflow") != std::string::npos) { std::cout << " fx=ERR:overflow"; }
+      else { std::cout << " fx=ERR:other:" << hex(what); }
+    }
+  }
+};
+template <>
+struct Into<void>
+{
+  static void run(const std::string&) { std::cout << " fx=NA"; }
+};
+
 
 // Report the serialization side of one value.  `X` is a tag-compatible deserializable type
 // (or `void` if there is none); `D` says whether T itself is deserializable.
-template <typename T, typename RT, typename X>
+template <typename T, typename RT, typename X, typename F = void>
 void report(int id, const T& v)
 {
   const auto tag = mserialize::tag<T>();
@@ -208,6 +241,7 @@ void report(int id, const T& v)
   // round trip into RT (T itself when deserializable) and into the tag-compatible X
   report_roundtrip<RT>("rt", bytes);
   report_roundtrip<X>("xt", bytes);
+  Into<F>::run(bytes);
   std::cout << "\n";
 }
 
